@@ -395,10 +395,11 @@ impl Property for C12 {
             Segment::random("RearCodedList", tier.pick(20_000, 300_000), &[4], 16, 200),
             Segment::random("VFunc/VFilter", tier.pick(2_000, 30_000), &[5], 8, 40),
             Segment::random("misc", tier.pick(5_000, 60_000), &[6], 8, 60),
+            Segment::random("Modulo2Equation/Modulo2System", tier.pick(20_000, 300_000), &[7], 8, 120),
         ]
     }
     fn rule(&self) -> &'static str {
-        "case = op sequence over an explicit menu of SAFE public methods on generated structures (including empty and minimal ones) with arguments from the whole usize/string domain (len, len+-1, len+63/64, count+1, 2^32, 2^63, usize::MAX, random): BitVec/AtomicBitVec get/set/swap/Index/iter/iter_ones/iter_zeros/push/pop/resize/fill/flip/reset/to_owned/count; BitFieldVec<u8,u16,u64,u128> get/set/iter_from/into_iter_from/get_unaligned/addr_of/push/pop/resize/clear/copy/try_chunks_mut/from_slice/apply_in_place/reset; every rank/select stack of the C01/C02 menu: rank, rank_zero, select, select_zero far beyond the counts and Index out of range; Elias-Fano get/index_of/contains/succ/succ_strict/pred/pred_strict/iter_from/into_iter_from; rear-coded list get/get_in_place/iter_from/lend_from/into_iter_from/index_of/contains with probes that may contain NUL; VFunc::get and VFilter::contains/Index/get on never-inserted keys for every row of the builder table including functions over 0 and 1 keys; SliceSeq::get; Modulo2System::check with a wrong-length vector. *_unchecked methods and the unaligned queries of functions/filters are never called. Oracle = process outcome only (a return value or an unwinding panic is fine; a worker death - std ub_checks abort, AddressSanitizer report, signal - is the violation). Non-trivial: at least one out-of-domain argument on a non-empty structure, or any call on an empty one; distinct = distinct hash of the case bytes."
+        "case = op sequence over an explicit menu of SAFE public methods on generated structures (including empty and minimal ones) with arguments from the whole usize/string domain (len, len+-1, len+63/64, count+1, 2^32, 2^63, usize::MAX, random): BitVec/AtomicBitVec get/set/swap/Index/iter/iter_ones/iter_zeros/push/pop/resize/fill/flip/reset/to_owned/count; BitFieldVec<u8,u16,u64,u128> get/set/iter_from/into_iter_from/get_unaligned/addr_of/push/pop/resize/clear/copy/try_chunks_mut/from_slice/apply_in_place/reset; every rank/select stack of the C01/C02 menu: rank, rank_zero, select, select_zero far beyond the counts and Index out of range; Elias-Fano get/index_of/contains/succ/succ_strict/pred/pred_strict/iter_from/into_iter_from; rear-coded list get/get_in_place/iter_from/lend_from/into_iter_from/index_of/contains with probes that may contain NUL; VFunc::get and VFilter::contains/Index/get on never-inserted keys for every row of the builder table including functions over 0 and 1 keys; SliceSeq::get; Modulo2System::check with a wrong-length vector; Modulo2Equation::add on arbitrary pairs of sorted variable lists (disjoint, nested, equal, empty), Modulo2System push/gaussian_elimination/lazy_gaussian_elimination on generated systems including variables at or beyond num_vars. *_unchecked methods and the unaligned queries of functions/filters are never called. Oracle = process outcome only (a return value or an unwinding panic is fine; a worker death - std ub_checks abort, AddressSanitizer report, signal - is the violation). Non-trivial: at least one out-of-domain argument on a non-empty structure, or any call on an empty one; distinct = distinct hash of the case bytes."
     }
     fn run(&self, data: &[u8], cx: &mut Ctx) -> R {
         let (mode, rest) = data.split_first().unwrap_or((&0, &[]));
@@ -423,7 +424,60 @@ impl Property for C12 {
                 let style = u.int_in_range(0u8..=2).unwrap_or(0);
                 props_func::with_row!(row, |K, W, D, S, E| func_ops::<K, W, D, S, E>(cx, n, filter, style))
             }
+            7 => mod2_ops(cx, &mut u),
             _ => misc_ops(cx, &mut u),
         }
     }
+}
+
+/// The safe surface of `sux::utils::mod2_sys`: `add` merges through raw
+/// pointers, the solvers index by variable.
+fn mod2_ops(cx: &mut Ctx, u: &mut Unstructured) -> R {
+    let nv = u.int_in_range(1usize..=40).unwrap_or(5);
+    let ne = u.int_in_range(0usize..=12).unwrap_or(3);
+    let wild_vars: bool = u.ratio(1u8, 8).unwrap_or(false);
+    cx.label_if(wild_vars, "vars>=num_vars");
+    let mut eqs: Vec<(Vec<u32>, usize)> = Vec::new();
+    for _ in 0..ne {
+        let mask: u64 = match u.int_in_range(0u8..=3).unwrap_or(0) {
+            0 => u.arbitrary::<u64>().unwrap_or(0) & u.arbitrary::<u64>().unwrap_or(0) & u.arbitrary::<u64>().unwrap_or(0),
+            1 => u.arbitrary::<u64>().unwrap_or(0),
+            2 => 1u64 << u.int_in_range(0u32..=63).unwrap_or(0),
+            _ => 0,
+        };
+        let mut vars: Vec<u32> = (0..64u32).filter(|b| mask >> b & 1 == 1 && (*b as usize) < nv).collect();
+        if wild_vars {
+            vars.push(nv as u32 + u.int_in_range(0u32..=3).unwrap_or(0));
+            if u.ratio(1u8, 4).unwrap_or(false) {
+                vars.push(u32::MAX);
+            }
+        }
+        let c = u.arbitrary::<u8>().unwrap_or(0) as usize & [1usize, 3, 255][u.int_in_range(0usize..=2).unwrap_or(0)];
+        eqs.push((vars, c));
+    }
+    cx.hash(&(nv, &eqs));
+    // add on every ordered pair (the crate only ever adds equations sharing a variable)
+    for i in 0..eqs.len().min(6) {
+        for j in 0..eqs.len().min(6) {
+            let (a, b) = (&eqs[i], &eqs[j]);
+            let mut x = unsafe { Modulo2Equation::<usize>::from_parts(a.0.clone(), a.1) };
+            let y = unsafe { Modulo2Equation::<usize>::from_parts(b.0.clone(), b.1) };
+            let disjoint = !a.0.iter().any(|v| b.0.contains(v));
+            cx.label_if(disjoint && !a.0.is_empty() && !b.0.is_empty(), "add.disjoint");
+            cx.label_if(a.0.is_empty() != b.0.is_empty(), "add.one_empty");
+            cx.any(|| x.add(&y));
+            cx.any(|| format!("{x:?}").len());
+        }
+    }
+    for lazy in [false, true] {
+        let mut sys = Modulo2System::<usize>::new(nv);
+        for (vars, c) in &eqs {
+            sys.push(unsafe { Modulo2Equation::from_parts(vars.clone(), *c) });
+        }
+        // judged by the process outcome only: an answer, an error or a panic
+        let solved = cx.any(|| if lazy { sys.lazy_gaussian_elimination().is_ok() } else { sys.gaussian_elimination().is_ok() });
+        cx.label_if(solved == Some(true), "mod2.solved");
+        cx.label_if(solved == Some(false), "mod2.unsolvable");
+    }
+    Ok(())
 }
